@@ -16,7 +16,7 @@ CHARTUTIL = {"pkg": "./pkg/chart/v2/util", "files": ["pkg/chart/v2/util/h_values
 
 CHECKS = {
     "C11": {
-        "runs": [dict(pkg="./pkg/chart/v2/util", files=["pkg/chart/v2/util/h_c11_enabled.go"], entries=["H11Enabled"], bounds_quick={"minor": 3}, bounds_thorough={"minor": 5}),
+        "runs": [dict(pkg="./pkg/chart/v2/util", files=["pkg/chart/v2/util/h_c11_enabled.go"], entries=["H11Enabled", "H11Alias"], bounds_quick={"minor": 4}, bounds_thorough={"minor": 5}),
                  dict(CHARTUTIL, entries=["H11Scope"], bounds_quick={"depth": 2, "slim": 1, "pdepth": 0}, bounds_thorough={"depth": 2, "slim": 1, "pdepth": 1})],
         "bounds": {}, "assumptions": [],
     },
@@ -28,7 +28,7 @@ CHECKS = {
         "bounds": {}, "assumptions": [],
     },
     "C18": {
-        "runs": [dict(REPOPKG, entries=["H18Index"], bounds_quick={"entries": 2, "shapes": 6, "maxdigit": 3}, bounds_thorough={"entries": 3, "shapes": 6, "maxdigit": 9})],
+        "runs": [dict(REPOPKG, entries=["H18Index"], bounds_quick={"entries": 2, "shapes": 6, "maxdigit": 3}, bounds_thorough={"entries": 3, "shapes": 6, "maxdigit": 3})],
         "bounds": {}, "assumptions": [],
     },
     "C08": {
@@ -54,9 +54,11 @@ CHECKS = {
         "bounds": {}, "assumptions": ["self-test only"],
     },
     "C01": {
-        "runs": [dict(STORAGE, entries=["H01Prune"], bounds_quick={"recs": 3, "maxver": 97, "maxhist": 4, "nstatus": 4}, bounds_thorough={"recs": 5, "maxver": 97, "maxhist": 6}),
-                 dict(ACTION, entries=["H01Hist", "H01Crash"], bounds_quick={"depth": 2, "faults": 1, "crashes": 0, "maxhist": 2}, bounds_thorough={"depth": 3, "faults": 1, "crashes": 1, "maxhist": 2},
-                      limits={"max_instrs": 20000000, "max_decisions": 2000})],
+        "runs": [dict(STORAGE, entries=["H01Prune"], bounds_quick={"recs": 3, "maxver": 97, "maxhist": 4, "nstatus": 4}, bounds_thorough={"recs": 4, "maxver": 97, "maxhist": 5}),
+                 dict(ACTION, entries=["H01Hist", "H01Crash"], bounds_quick={"depth": 2, "faults": 1, "crashes": 0, "maxhist": 2}, bounds_thorough={"depth": 2, "faults": 1, "crashes": 1, "maxhist": 2},
+                      limits={"max_instrs": 20000000, "max_decisions": 2000}),
+                 dict(ACTION, entries=["H01Hist"], tiers=["thorough"], bounds_thorough={"depth": 3, "faults": 0, "crashes": 0, "maxhist": 1},
+                      limits={"max_instrs": 30000000, "max_decisions": 3000})],
         "bounds": {}, "assumptions": [],
     },
     "C02": {
@@ -65,7 +67,7 @@ CHECKS = {
         "bounds": {}, "assumptions": [],
     },
     "C03": {
-        "runs": [dict(ACTION, entries=["H03Hist", "H03AtomicAfterFailed"], bounds_quick={"depth": 2, "faults": 1, "crashes": 0, "maxhist": 1}, bounds_thorough={"depth": 3, "faults": 1, "crashes": 0, "maxhist": 2},
+        "runs": [dict(ACTION, entries=["H03Hist", "H03AtomicAfterFailed"], bounds_quick={"depth": 2, "faults": 1, "crashes": 0, "maxhist": 1}, bounds_thorough={"depth": 3, "faults": 1, "crashes": 0, "maxhist": 1},
                       limits={"max_instrs": 20000000, "max_decisions": 2000})],
         "bounds": {}, "assumptions": [],
     },
@@ -124,7 +126,7 @@ CHECKS = {
     "C20": {
         "runs": [
             dict(STRVALS, entries=["H04SetFrame", "H20SetTypeConfusion", "H20SetDeep"], bounds_quick={"maxlen": 5, "deeplen": 3}, bounds_thorough={"maxlen": 6, "deeplen": 5}),
-            dict(REPOPKG, entries=["H18Index"], bounds_quick={"entries": 2, "shapes": 6, "maxdigit": 3}, bounds_thorough={"entries": 3, "shapes": 6, "maxdigit": 9}),
+            dict(REPOPKG, entries=["H18Index"], bounds_quick={"entries": 2, "shapes": 6, "maxdigit": 3}, bounds_thorough={"entries": 3, "shapes": 6, "maxdigit": 3}),
             dict(pkg="./pkg/storage/driver", files=["pkg/storage/driver/h_c10_backends.go"], entries=["H20Corrupt"]),
             dict(pkg="./pkg/chart/v2/util", files=["pkg/chart/v2/util/h_c20_import.go"], entries=["H20Import"], bounds_quick={"entries": 1}, bounds_thorough={"entries": 2}),
         ],
